@@ -6,6 +6,7 @@ on the whole control domain x window layouts with concrete data; the dumped
 backing stores, scalars and context struct are compared with the reference
 interpreter run on the same LoopIR and inputs."""
 import json
+import os
 from fractions import Fraction
 
 from vf import cback, inputs, interp, par, seeds
@@ -19,6 +20,11 @@ def program_list(tier):
         out.append(("seed", s.name))
     for p in programs.backend_programs(tier):
         out.append(("gen", p.name))
+    only = os.environ.get("VF_ONLY")  # development aid (regex on program names); registered commands never set it
+    if only:
+        import re
+
+        out = [x for x in out if re.search(only, x[1])]
     return out
 
 
